@@ -8,7 +8,7 @@ From Mamba Require Canon.AutBase Canon.Aut Canon.Group Canon.Orbit Canon.GroupEd
 From Mamba Require Import Canon.Perm Canon.Iso Canon.Model Canon.Refine Canon.Sorted Canon.Tree Canon.Fuel
   Disjoint.Model Disjoint.Proofs Canon.SearchModel Canon.SearchHoare Canon.SearchCells Canon.SearchTarget
   Canon.SearchDeage Canon.SearchRefine Canon.SearchExec Canon.SearchValue Canon.SearchExpand Canon.SearchCert
-  Canon.SearchInvT Canon.SearchVCT Canon.SearchInvV Canon.SearchVCV Canon.SearchInit.
+  Canon.SearchInvT Canon.SearchVCT Canon.SearchInvV Canon.SearchVCV Canon.SearchInit Canon.SearchTerm.
 Import ListNotations.
 Open Scope nat_scope.
 
@@ -25,54 +25,67 @@ Let order0 := order_of cs0.
 
 Hypothesis Hcls : cls_ok n cls.
 
-(* the branch that runs the search: n > 0 and m > 0 *)
-Lemma search_dfs : forall fuel p o gs, 0 < n -> 0 < m -> canon_search fuel g cls = Ok (p, o, gs) ->
-  exists root st', refine g (erase cs0) = Some root /\ VPdone g n m clsf order0 root st' /\
-    p = s_cbPerm st' /\ o = s_flOrb st' /\ gs = s_gens st'.
+(* the branch that runs the search: n > 0 and m > 0.  What precedes the main loop either panics
+   (whatever the fuel) or establishes the invariant. *)
+Lemma canon_search_init : 0 < n -> 0 < m ->
+  (forall fuel, canon_search fuel g cls = Panic) \/
+  exists ps0 root, (forall fuel, canon_search fuel g cls = main_loop g n m fuel (init_state n m ps0) false) /\
+    refine g (erase cs0) = Some root /\ VPtop g n m clsf order0 root (init_state n m ps0) false.
 Proof.
-  intros fuel p o gs Hn0 Hm0 H. unfold canon_search in H. fold n m cs0 in H.
+  intros Hn0 Hm0.
   assert (En : n =? 0 = false) by (apply Nat.eqb_neq; lia). assert (Em : m =? 0 = false) by (apply Nat.eqb_neq; lia).
-  rewrite En, Em in H.
   destruct (init_cells_ok n cls Hn0 Hcls) as (HP0 & HN0 & HA0 & HG0). fold cs0 in HP0, HN0, HA0, HG0.
   assert (HO0 : length (order_of cs0) = n) by (rewrite (Permutation_length HP0); apply seq_length).
   assert (Hnd0 : NoDup (order_of cs0)) by (apply (Permutation_NoDup (Permutation_sym HP0)), seq_NoDup).
   pose proof (expand_loop_spec g n m cs0 [] (repeat 0 m) HN0 HO0 (n - 0) 0 [] ltac:(lia) ltac:(lia)
                 ltac:(intros k c Hk; lia) eq_refl) as HE.
-  unfold expand_value in H.
-  destruct (expand_loop (n - 0) g cs0 n m [] (repeat 0 m) [] 0) as [|v|v s] eqn:EE; [discriminate| |].
+  destruct (expand_loop (n - 0) g cs0 n m [] (repeat 0 m) [] 0) as [|v|v s] eqn:EE.
+  { left. intros fuel. unfold canon_search. fold n m cs0. rewrite En, Em. unfold expand_value. rewrite EE. reflexivity. }
   { exfalso. eapply expand_loop_nil. exact EE. }
   destruct HE as [HC0 _].
-  bind_inv H. destruct r as [w ps0]. cbn [fst snd] in H.
+  destruct (refine_s g n m [] (repeat 0 m) (mkP cs0 0%Z v s)) as [[w ps0]| |] eqn:E.
+  2:{ left. intros fuel. unfold canon_search. fold n m cs0. rewrite En, Em. unfold expand_value. rewrite EE, E. reflexivity. }
+  2:{ exfalso. eapply (SearchTerm.nofuel_refine_s g n m [] (repeat 0 m) (mkP cs0 0%Z v s)); [exact HN0|exact E]. }
+  right.
   assert (Hw : w = false) by (unfold refine_s in E; eapply refine_loop_nil; exact E). subst w.
   destruct (refine_s_spec _ _ _ _ _ _ _ _ E) as (HV & Hage & HW). destruct (HW eq_refl) as [HU HRf]. cbn [p_cells p_age] in *.
-  unfold refine_s in E. cbn [p_cells] in E.
-  destruct (refine_loop_V g n m [] (repeat 0 m) _ (mkP cs0 0%Z v s) false ps0 HN0 HO0 HC0 E) as [_ HCl].
+  pose proof E as E'. unfold refine_s in E'. cbn [p_cells] in E'.
+  destruct (refine_loop_V g n m [] (repeat 0 m) _ (mkP cs0 0%Z v s) false ps0 HN0 HO0 HC0 E') as [_ HCl].
   set (root := erase (p_cells ps0)) in *.
-  exists root.
-  assert (HTop : VPtop g n m clsf order0 root (init_state n m ps0) false).
-  { unfold init_state. split; [|split; [|split; [|split]]].
-    - (* first layer *)
-      split; [|split; [reflexivity|intros _; split; [exact HU|apply rd_refl]]].
-      exists []. cbn [s_path s_choices s_skip s_ps]. split; [|split; [|split]].
-      + split; [reflexivity|]. split; [reflexivity|]. split; [intros k P HkP; destruct k; discriminate|].
-        split; [intros k P P' HkP; destruct k; discriminate|intros k P Hk; simpl in Hk; lia].
-      + split; [eapply perm_trans; [eapply V_order; exact HV|exact HP0]|]. split; [eapply V_nonempty; eassumption|].
-        split; [eapply V_casc; eassumption|]. split; [eapply (Kc_V clsf order0); [exact HV|apply Kc_init; exact Hnd0]|].
-        split; [exact Hage|]. split; [eapply V_ages; [exact HV|unfold zl; simpl; lia|exact HG0]|exact I].
-      + intros top Ht. discriminate.
-      + split; [cbn; apply repeat_length|]. intros Hc. cbn in Hc. congruence.
-    - unfold SearchInvV.vst. cbn [s_skip s_path s_ps s_cb s_fl]. apply clean_vinv. exact HCl.
-    - constructor; cbn [s_cbInv s_flInv s_fl s_flOrb s_cb s_count s_gens s_cbPerm].
-      + rewrite !repeat_length. unfold new. rewrite repeat_length. repeat split.
-      + split; [split; reflexivity|reflexivity].
-      + intros Hc. congruence.
-      + intros Hc. congruence.
-      + constructor.
-      + exists []. split; [apply new_Rep|]. split; [intros x y []|intros gm x []].
-    - intros _. split; [exact HCl|]. intros Hc. cbn in Hc. congruence.
-    - reflexivity. }
-  destruct (search_V g n m clsf order0 root Hg eq_refl eq_refl Hm0 fuel _ _ p o gs HTop H) as (st' & HD & E1 & E2 & E3).
-  exists st'. split; [exact HRf|]. split; [exact HD|]. auto.
+  exists ps0, root. split; [|split; [exact HRf|]].
+  { intros fuel. unfold canon_search. fold n m cs0. rewrite En, Em. unfold expand_value. rewrite EE, E. reflexivity. }
+  unfold init_state. split; [|split; [|split; [|split]]].
+  - (* first layer *)
+    split; [|split; [reflexivity|intros _; split; [exact HU|apply rd_refl]]].
+    exists []. cbn [s_path s_choices s_skip s_ps]. split; [|split; [|split]].
+    + split; [reflexivity|]. split; [reflexivity|]. split; [intros k P HkP; destruct k; discriminate|].
+      split; [intros k P P' HkP; destruct k; discriminate|intros k P Hk; simpl in Hk; lia].
+    + split; [eapply perm_trans; [eapply V_order; exact HV|exact HP0]|]. split; [eapply V_nonempty; eassumption|].
+      split; [eapply V_casc; eassumption|]. split; [eapply (Kc_V clsf order0); [exact HV|apply Kc_init; exact Hnd0]|].
+      split; [exact Hage|]. split; [eapply V_ages; [exact HV|unfold zl; simpl; lia|exact HG0]|exact I].
+    + intros top Ht. discriminate.
+    + split; [cbn; apply repeat_length|]. intros Hc. cbn in Hc. congruence.
+  - unfold SearchInvV.vst. cbn [s_skip s_path s_ps s_cb s_fl]. apply clean_vinv. exact HCl.
+  - constructor; cbn [s_cbInv s_flInv s_fl s_flOrb s_cb s_count s_gens s_cbPerm].
+    + rewrite !repeat_length. unfold new. rewrite repeat_length. repeat split.
+    + split; [split; reflexivity|reflexivity].
+    + intros Hc. congruence.
+    + intros Hc. congruence.
+    + constructor.
+    + exists []. split; [apply new_Rep|]. split; [intros x y []|intros gm x []].
+  - intros _. split; [exact HCl|]. intros Hc. cbn in Hc. congruence.
+  - reflexivity.
+Qed.
+
+Lemma search_dfs : forall fuel p o gs, 0 < n -> 0 < m -> canon_search fuel g cls = Ok (p, o, gs) ->
+  exists root st', refine g (erase cs0) = Some root /\ VPdone g n m clsf order0 root st' /\
+    p = s_cbPerm st' /\ o = s_flOrb st' /\ gs = s_gens st'.
+Proof.
+  intros fuel p o gs Hn0 Hm0 H. destruct (canon_search_init Hn0 Hm0) as [HP|(ps0 & root & HE & HRf & HTop)].
+  - rewrite HP in H. discriminate.
+  - rewrite HE in H. exists root.
+    destruct (search_V g n m clsf order0 root Hg eq_refl eq_refl Hm0 fuel _ _ p o gs HTop H) as (st' & HD & E1 & E2 & E3).
+    exists st'. split; [exact HRf|]. split; [exact HD|]. auto.
 Qed.
 
 (* ---------------------------------------------------------------- (a) the permutation *)
@@ -107,6 +120,27 @@ Proof.
   apply rdesc_leaf; [exact HD|exact HT|exact NQ| |].
   - apply (Permutation_NoDup (Permutation_sym HPr)), seq_NoDup.
   - rewrite (Permutation_length HPr), seq_length. lia.
+Qed.
+
+(* ---------------------------------------------------------------- the fuel suffices *)
+
+Definition search_fuel (k : nat) : nat := S (Nn (S k) k).
+
+Theorem search_terminates : forall fuel, search_fuel n <= fuel ->
+  canon_search fuel g cls <> Fuel /\ canon_search fuel g cls = canon_search (search_fuel n) g cls.
+Proof.
+  intros fuel Hf. destruct (Nat.eq_dec n 0) as [E0|E0].
+  - unfold canon_search. fold n. rewrite E0. simpl. split; [discriminate|reflexivity].
+  - destruct (Nat.eq_dec m 0) as [Em|Em].
+    + unfold canon_search. fold n m. assert (En : n =? 0 = false) by (apply Nat.eqb_neq; lia). rewrite En, Em. simpl.
+      split; [discriminate|reflexivity].
+    + destruct (canon_search_init ltac:(lia) ltac:(lia)) as [HP|(ps0 & root & HE & _ & HTop)].
+      * rewrite !HP. split; [discriminate|reflexivity].
+      * rewrite !HE. destruct HTop as (HT & _).
+        assert (HNF : nofuel (main_loop g n m (search_fuel n) (init_state n m ps0) false)).
+        { apply (main_nofuel g n m root (Kc clsf order0) (Kc_V clsf order0)); [exact HT|].
+          assert (E : mu (S n) n (s_path (init_state n m ps0)) = Nn (S n) n) by apply mu_nil. rewrite E. unfold search_fuel. lia. }
+        rewrite (main_loop_mono_le g n m _ _ _ _ Hf HNF). split; [exact HNF|reflexivity].
 Qed.
 
 End Final.
